@@ -260,3 +260,136 @@ pub fn arg_or(name: &str, default: &str) -> String {
 pub fn arg_usize(name: &str, default: usize) -> usize {
     arg(name).and_then(|s| s.parse().ok()).unwrap_or(default)
 }
+
+/// Run `n` cases in child processes of the current binary so that a hang or
+/// abort of the code under test becomes data.
+///
+/// The child is invoked as `<exe> <args...> --child-from A --child-to N --out TMP`
+/// and must write, for every case `i` in `A..N`, a record containing
+/// `"ev":"case"` and `"idx":i` *before* running it (flushing the trace), then
+/// its result records. One child normally runs all cases; if its trace file
+/// stops growing for `timeout_ms` (hang) or it dies, `outcome(kind)` is
+/// appended as the result of the case that was running (`kind` = "timeout" |
+/// "abort" | "panic") and a new child resumes with the next case. All child
+/// traces are concatenated into `out`. `_chunk` is unused (kept for callers).
+pub fn run_chunked(
+    out: &str,
+    args: &[String],
+    n: usize,
+    _chunk: usize,
+    timeout_ms: u64,
+    outcome: &dyn Fn(&str, u64) -> Value,
+) {
+    use std::io::Read;
+    use std::os::unix::process::ExitStatusExt;
+    use std::process::{Command, Stdio};
+    let mut main = File::create(out).expect("create trace");
+    let tmp = format!("{out}.chunk");
+    let mut start = 0usize;
+    let mut seq = 0u64;
+    // After this many hangs/aborts stop running further cases: each one costs
+    // a full timeout and the failures already recorded decide the verdict.
+    let max_fail: usize = std::env::var("VERIF_MAX_FAIL")
+        .ok()
+        .and_then(|s| s.parse().ok())
+        .unwrap_or(4);
+    let mut nfail = 0usize;
+    while start < n && nfail < max_fail {
+        let mut a: Vec<String> = args.to_vec();
+        a.extend([
+            "--child-from".to_string(),
+            start.to_string(),
+            "--child-to".to_string(),
+            n.to_string(),
+            "--out".to_string(),
+            tmp.clone(),
+        ]);
+        let _ = std::fs::remove_file(&tmp);
+        let exe = std::env::current_exe().unwrap();
+        let mut child = Command::new(exe)
+            .args(&a)
+            .stdin(Stdio::null())
+            .stdout(Stdio::null())
+            .stderr(Stdio::null())
+            .spawn()
+            .expect("spawn child");
+        let mut last_size = 0u64;
+        let mut last_change = std::time::Instant::now();
+        // kind: None = finished ok
+        let kind: Option<&str> = loop {
+            match child.try_wait().unwrap() {
+                Some(st) => {
+                    if st.success() {
+                        break None;
+                    } else if st.signal().is_some() {
+                        break Some("abort");
+                    } else {
+                        break Some("panic");
+                    }
+                }
+                None => {
+                    let size = std::fs::metadata(&tmp).map(|m| m.len()).unwrap_or(0);
+                    if size != last_size {
+                        last_size = size;
+                        last_change = std::time::Instant::now();
+                    } else if last_change.elapsed().as_millis() as u64 > timeout_ms {
+                        let _ = child.kill();
+                        let _ = child.wait();
+                        break Some("timeout");
+                    }
+                    std::thread::sleep(std::time::Duration::from_millis(20));
+                }
+            }
+        };
+        let mut content = String::new();
+        if let Ok(mut f) = File::open(&tmp) {
+            let _ = f.read_to_string(&mut content);
+        }
+        // Keep complete lines only.
+        let complete = match content.rfind('\n') {
+            Some(p) => &content[..p + 1],
+            None => "",
+        };
+        main.write_all(complete.as_bytes()).unwrap();
+        seq += complete.lines().count() as u64;
+        match kind {
+            None => {
+                start = n;
+            }
+            Some(kind) => {
+                nfail += 1;
+                // Find the case that was running: scan backwards.
+                let mut last_idx: Option<usize> = None;
+                let mut last_is_case = false;
+                for (k, line) in complete.lines().rev().enumerate() {
+                    if line.contains("\"ev\":\"case\"") {
+                        if let Ok(v) = serde_json::from_str::<Value>(line) {
+                            last_idx = v.get("idx").and_then(|i| i.as_u64()).map(|i| i as usize);
+                            last_is_case = k == 0;
+                            break;
+                        }
+                    }
+                }
+                match last_idx {
+                    Some(i) if last_is_case => {
+                        seq += 1;
+                        let rec = outcome(kind, seq);
+                        serde_json::to_writer(&mut main, &rec).unwrap();
+                        main.write_all(b"\n").unwrap();
+                        start = i + 1;
+                    }
+                    Some(i) => {
+                        // died between cases; resume after the last started case
+                        start = i + 1;
+                    }
+                    None => {
+                        eprintln!("child failed before starting a case ({kind}); giving up");
+                        std::process::exit(2);
+                    }
+                }
+            }
+        }
+    }
+    let _ = std::fs::remove_file(&tmp);
+    main.flush().unwrap();
+}
